@@ -192,6 +192,11 @@ func mapRangeInsensitive(info *types.Info, b *Body, rs *ast.RangeStmt) (string, 
 					}
 				}
 			case *ast.IfStmt:
+				if isExtremumUpdate(info, x, k, v) {
+					// if !found || key < best { best, found = key, true }: the least (greatest) qualifying entry, whatever
+					// the order in which the entries are visited
+					continue
+				}
 				if x.Init != nil {
 					if !walk([]ast.Stmt{x.Init}) {
 						return false
@@ -256,6 +261,76 @@ func mapRangeInsensitive(info *types.Info, b *Body, rs *ast.RangeStmt) (string, 
 		return "appends, then sorts", true
 	}
 	return "inserts / constant reductions only", true
+}
+
+// isExtremumUpdate recognises the running minimum / maximum over the entries of a map:
+//
+//	if [!found ||] it < best { best[, found] = it[, true] }        (also >, <=, >=; operands in either order)
+//
+// where it is the range key or value, best a variable and found a boolean. The value of best after the loop is the
+// extremum of the qualifying entries under the operand type's order — a commutative, associative reduction — so it does not
+// depend on the iteration order (equal values are interchangeable; keys are distinct).
+func isExtremumUpdate(info *types.Info, x *ast.IfStmt, k, v types.Object) bool {
+	if x.Init != nil || x.Else != nil || len(x.Body.List) != 1 {
+		return false
+	}
+	as, ok := x.Body.List[0].(*ast.AssignStmt)
+	if !ok || as.Tok != token.ASSIGN || len(as.Lhs) != len(as.Rhs) {
+		return false
+	}
+	obj := func(e ast.Expr) types.Object {
+		if id, ok := ast.Unparen(e).(*ast.Ident); ok {
+			return info.Uses[id]
+		}
+		return nil
+	}
+	var best, it types.Object
+	flags := map[types.Object]bool{}
+	for i, l := range as.Lhs {
+		lo := obj(l)
+		if lo == nil {
+			return false
+		}
+		if ro := obj(as.Rhs[i]); ro != nil && (ro == k || ro == v) {
+			if best != nil {
+				return false
+			}
+			best, it = lo, ro
+			continue
+		}
+		if tv, ok := info.Types[as.Rhs[i]]; ok && tv.Value != nil {
+			flags[lo] = true
+			continue
+		}
+		return false
+	}
+	if best == nil {
+		return false
+	}
+	// the condition: disjuncts `!flag` (first entry) and exactly one comparison between it and best
+	cmp := 0
+	var check func(e ast.Expr) bool
+	check = func(e ast.Expr) bool {
+		switch y := ast.Unparen(e).(type) {
+		case *ast.BinaryExpr:
+			switch y.Op {
+			case token.LOR:
+				return check(y.X) && check(y.Y)
+			case token.LSS, token.GTR, token.LEQ, token.GEQ:
+				a, b := obj(y.X), obj(y.Y)
+				if (a == it && b == best) || (a == best && b == it) {
+					cmp++
+					return true
+				}
+			}
+		case *ast.UnaryExpr:
+			if y.Op == token.NOT && flags[obj(y.X)] {
+				return true
+			}
+		}
+		return false
+	}
+	return check(x.Cond) && cmp == 1
 }
 
 // sortedAfter: after the range statement, the first statement mentioning o is a sort.* call on it.
